@@ -151,6 +151,11 @@ def run(ctx):
         ("untyped-let-match", "pub fn main(x: u16) -> u16 { let r = match x { 0u16 => 1, _ => 2 }; r }", 16),
         ("untyped-let-if", "pub fn main(x: bool) -> u64 { let r = if x { 1 } else { 2 }; r }", 64),
         ("untyped-let-repeat", "pub fn main(x: u8) -> [u8; 3] { let a = [1; 3]; a }", 24),
+        # assignments into an element of an array WITHOUT elements, with further accessors (always out of bounds when run)
+        ("empty-array-tuple-field-control", "pub fn main(x: u8) -> u8 { let mut a = [(x, x); 0]; a[0usize].1 = x; x }", 8),
+        ("empty-array-inner-index-control", "pub fn main(x: u8, i: usize) -> u8 { let mut a = [[x; 2]; 0]; a[i][1usize] = x; x }", 8),
+        ("empty-array-struct-field-control", "struct P5 { g: u8, h: bool }\npub fn main(x: u8) -> u8 { let mut a = [P5 { g: x, h: true }; 0]; a[1usize].g = x; x }", 8),
+        ("empty-array-plain-control", "pub fn main(x: u8) -> u8 { let mut a = [x; 0]; a[0usize] = x; x }", 8),
         ("typed-let-control", "pub fn main(x: u8) -> u8 { let a: u8 = 5; x + a }", 8),
         ("suffixed-range-control", "pub fn main(x: u8) -> [u8; 3] { 1u8..4u8 }", 24),
     ]
